@@ -1,5 +1,6 @@
 import Dhcp.V6.Codec
 import Dhcp.V4.Domain
+import Dhcp.Spec.Name
 /-
   The round-trip domain of C02 as explicit predicates over the DHCPv6 model
   values ("each field ranging over its representable domain"), and the nesting
@@ -88,6 +89,127 @@ def WFOpts : List Opt6 → Prop
 def WFMsg : Msg6 → Prop
   | .msg t xid os => isRelayType t = false ∧ xid.length = 3 ∧ WFOpts os
   | .relay t _ link peer os => isRelayType t = true ∧ IP16 link ∧ IP16 peer ∧ WFOpts os
+end
+
+/-! ### freshly built label sets
+
+A label set a caller builds (`&rfc1035label.Labels{Labels: names}`, what
+`WithFQDN` / `WithDomainSearchList` and `OptDomainSearchList` callers do) has
+`original = nil`; what the decoder returns carries the bytes it was parsed from.
+`normLabels` is that step on one label set, `normOpt / normOpts / normMsg` apply
+it wherever a label set lives (domain search list, client FQDN, NTP server FQDN
+suboption), through every container option and relay level.  `WFMsg'` is the
+round-trip domain with fresh label sets of valid names allowed next to decoded
+ones (`LabelsOK'`); everything else as `WFMsg`. -/
+
+/-- a fresh label set becomes what decoding its encoding returns: same names,
+`original` = the bytes `labelsToBytes` emits for them; a set that already has
+its `original` stays as it is -/
+def normLabels (l : Label.Labels) : Label.Labels :=
+  match l.original with
+  | none => { original := some (Label.labelsToBytes l.labels), labels := l.labels }
+  | some _ => l
+
+def normNTP : NTPSub → NTPSub
+  | .srvFQDN l => .srvFQDN (normLabels l)
+  | .srvAddr ip => .srvAddr ip
+  | .mcAddr ip => .mcAddr ip
+  | .generic c d => .generic c d
+
+mutual
+def normOpt : Opt6 → Opt6
+  | .iana i t1 t2 os => .iana i t1 t2 (normOpts os)
+  | .iata i os => .iata i (normOpts os)
+  | .iaaddr ip p v os => .iaaddr ip p v (normOpts os)
+  | .relayMsg m => .relayMsg (normMsg m)
+  | .iapd i t1 t2 os => .iapd i t1 t2 (normOpts os)
+  | .iaprefix p v pfx os => .iaprefix p v pfx (normOpts os)
+  | .fourRD os => .fourRD (normOpts os)
+  | .domainSearch l => .domainSearch (normLabels l)
+  | .fqdn f n => .fqdn f (normLabels n)
+  | .ntp subs => .ntp (subs.map normNTP)
+  | .clientID d => .clientID d
+  | .serverID d => .serverID d
+  | .oro cs => .oro cs
+  | .elapsed d => .elapsed d
+  | .status c m => .status c m
+  | .userClass cls => .userClass cls
+  | .vendorClass en ds => .vendorClass en ds
+  | .vendorOpts en os => .vendorOpts en os
+  | .interfaceID id => .interfaceID id
+  | .dns ips => .dns ips
+  | .infoRefresh d => .infoRefresh d
+  | .remoteID en id => .remoteID en id
+  | .bootfileURL u => .bootfileURL u
+  | .bootfileParam ps => .bootfileParam ps
+  | .archType as => .archType as
+  | .nii a b c => .nii a b c
+  | .clientLLA ht a => .clientLLA ht a
+  | .dhcpv4Msg p => .dhcpv4Msg p
+  | .dhcp4o6Server ips => .dhcp4o6Server ips
+  | .fourRDMapRule a b c d e f => .fourRDMapRule a b c d e f
+  | .fourRDNonMapRule a b c => .fourRDNonMapRule a b c
+  | .relayPort p => .relayPort p
+  | .generic c d => .generic c d
+def normOpts : List Opt6 → List Opt6
+  | [] => []
+  | o :: os => normOpt o :: normOpts os
+def normMsg : Msg6 → Msg6
+  | .msg t xid os => .msg t xid (normOpts os)
+  | .relay t h link peer os => .relay t h link peer (normOpts os)
+end
+
+/-- decoded form, or fresh with valid names (C19's `ValidName`: 1..63-octet
+labels without dots inside, at most 253 characters, not empty) -/
+def LabelsOK' (l : Label.Labels) : Prop :=
+  LabelsOK l ∨ (l.original = none ∧ Spec.Name.ValidNames l.labels)
+
+def NTPSubOK' : NTPSub → Prop
+  | .srvFQDN l => LabelsOK' l ∧ l.labels.length = 1
+  | s => NTPSubOK s
+
+mutual
+/-- `WFOpt` with `LabelsOK'` in place of `LabelsOK` -/
+def WFOpt' : Opt6 → Prop
+  | .iana i t1 t2 os => i.length = 4 ∧ DurOK t1 ∧ DurOK t2 ∧ WFOpts' os
+  | .iata i os => i.length = 4 ∧ WFOpts' os
+  | .iaaddr ip p v os => IP16 ip ∧ DurOK p ∧ DurOK v ∧ WFOpts' os
+  | .relayMsg m => WFMsg' m
+  | .iapd i t1 t2 os => i.length = 4 ∧ DurOK t1 ∧ DurOK t2 ∧ WFOpts' os
+  | .iaprefix p v pfx os => DurOK p ∧ DurOK v ∧ PfxOK pfx ∧ WFOpts' os
+  | .fourRD os => WFOpts' os
+  | .domainSearch l => LabelsOK' l
+  | .fqdn _ n => LabelsOK' n
+  | .ntp subs => ∀ s ∈ subs, NTPSubOK' s ∧ (encNTPSub s).length < 65536
+  | .clientID d => WFOpt (.clientID d)
+  | .serverID d => WFOpt (.serverID d)
+  | .oro cs => WFOpt (.oro cs)
+  | .elapsed d => WFOpt (.elapsed d)
+  | .status c m => WFOpt (.status c m)
+  | .userClass cls => WFOpt (.userClass cls)
+  | .vendorClass en ds => WFOpt (.vendorClass en ds)
+  | .vendorOpts en os => WFOpt (.vendorOpts en os)
+  | .interfaceID id => WFOpt (.interfaceID id)
+  | .dns ips => WFOpt (.dns ips)
+  | .infoRefresh d => WFOpt (.infoRefresh d)
+  | .remoteID en id => WFOpt (.remoteID en id)
+  | .bootfileURL u => WFOpt (.bootfileURL u)
+  | .bootfileParam ps => WFOpt (.bootfileParam ps)
+  | .archType as => WFOpt (.archType as)
+  | .nii a b c => WFOpt (.nii a b c)
+  | .clientLLA ht a => WFOpt (.clientLLA ht a)
+  | .dhcpv4Msg p => WFOpt (.dhcpv4Msg p)
+  | .dhcp4o6Server ips => WFOpt (.dhcp4o6Server ips)
+  | .fourRDMapRule a b c d e f => WFOpt (.fourRDMapRule a b c d e f)
+  | .fourRDNonMapRule a b c => WFOpt (.fourRDNonMapRule a b c)
+  | .relayPort p => WFOpt (.relayPort p)
+  | .generic c d => WFOpt (.generic c d)
+def WFOpts' : List Opt6 → Prop
+  | [] => True
+  | o :: os => WFOpt' o ∧ (encOpt o).length < 65536 ∧ WFOpts' os
+def WFMsg' : Msg6 → Prop
+  | .msg t xid os => isRelayType t = false ∧ xid.length = 3 ∧ WFOpts' os
+  | .relay t _ link peer os => isRelayType t = true ∧ IP16 link ∧ IP16 peer ∧ WFOpts' os
 end
 
 mutual
